@@ -6,6 +6,7 @@ import (
 
 	"github.com/relab/hotstuff/verif/vbase"
 	"github.com/relab/hotstuff/verif/vk"
+	_ "github.com/relab/hotstuff/verif/vlive"
 	_ "github.com/relab/hotstuff/verif/vsim"
 )
 
